@@ -108,6 +108,13 @@ def run(ctx):
     from . import c10
     c10.r10_3(ctx, rep, roles, P="C09")
     ctx.report.rules[-1].id = "R09.6(R12.1)"
+    # a datagram that decodes must not become a fatal receive error either (seed R3-C09-2)
+    from . import c19
+    c19.r19_2(ctx, rep)
+    ctx.report.rules[-1].id = "R09.7(R19.2)"
+    # the own-id guard (R05.2) and the member maps agree on what "the same id" is (seed R3-C09-1)
+    from .. import identity
+    identity.check(ctx, rep, "C09", "R09.8", ["id-eq", "id-ord", "id-hash"])
 
 
 def r09_inventory(ctx, rep, roles, P="C09", ent=None, rule_id="R09.1", extra_table=None, extra_counts=None):
